@@ -26,7 +26,73 @@ ARGPARSE_DEFAULTS = {"store": None, "store_const": None, "append": None, "append
                      "store_true": False, "store_false": True, None: None}
 
 
+LOOKUPS = ("__getitem__", "__setitem__", "__contains__", "_get_field", "__iter__")
+
+
+def TOLERATED_REFLECTION(model, call):
+    """getattr(obj, <computed name>) inside the dotted-path lookups is reported by lookup.field-table-only below, not as
+    an unmodelled construct"""
+    fn = model.enclosing_function(call)
+    return fn is not None and fn.cls is not None and fn.cls.name in ("Schema", "Config") and fn.name in LOOKUPS
+
+
+def check_lookup_namespace(ctx):
+    """Field keys and Python attribute names are two namespaces: the path lookups consult the field table, never the
+    attribute protocol with a computed name (a field called like a method or an internal attribute would resolve to that)."""
+    an, model = ctx.an, ctx.model
+    n = 0
+    for cname in ("Schema", "Config"):
+        for mname in LOOKUPS:
+            f = model.cls(cname).methods.get(mname)
+            if f is None:
+                continue
+            n += 1
+            bad = [x for x in ast.walk(f.node) if isinstance(x, ast.Call) and isinstance(x.func, ast.Name) and x.func.id in ("getattr", "hasattr", "setattr")
+                   and len(x.args) >= 2 and not isinstance(x.args[1], ast.Constant)]
+            ctx.ob("lookup.field-table-only", f, bad[0] if bad else "%s.%s" % (cname, mname), not bad,
+                   "resolves keys through the field table" if not bad else
+                   "%s resolves a key with %s(obj, <key>): a field named like an attribute or method of %s resolves to that attribute, "
+                   "not to the field enumeration reports" % (f.qualname, bad[0].func.id, cname))
+    ctx.need(n >= 4, "path lookup methods of Schema/Config not found")
+
+
+def check_setkey_protocol(ctx):
+    """A field's reference path is built from the _key / _schema that BaseField.__setkey__ records: every override hands the
+    call on (or records both itself) on every normal path."""
+    an, model = ctx.an, ctx.model
+    from engine.flow import path_avoiding
+    Base = model.cls("BaseField")
+    base_impl = Base.methods.get("__setkey__")
+    ctx.need(base_impl is not None, "BaseField.__setkey__ vanished")
+    n = 0
+    for c in Base.subclasses(strict=True):
+        f = c.methods.get("__setkey__")
+        if f is None:
+            continue
+        n += 1
+        g = an.cfg(f)
+        impls = {c2.methods.get("__setkey__") for c2 in Base.subclasses()} - {None}
+        hands_on = {m for m in g.nodes if m.kind == "call" and any(t in impls and t is not f for t in an.callees(f, m))}
+
+        def records(attr):
+            return {m for m in g.nodes if m.kind == "assign" and isinstance(m.ast, ast.Assign) and any(
+                isinstance(t, ast.Attribute) and t.attr == attr and isinstance(t.value, ast.Name) and t.value.id == f.self_name for t in m.ast.targets)}
+        ok = True
+        for needed in ("_key", "_schema"):
+            through = hands_on | records(needed)
+            p = path_avoiding(an, f, g.entry, lambda x: x is g.exit, lambda x: x in through)
+            if p is not None:
+                ok = False
+        ctx.ob("ref-path.setkey-recorded", f, "%s.__setkey__" % c.name, ok,
+               "every normal path records the key and the owning schema (directly or through super().__setkey__)" if ok else
+               "%s can return without the key / owning schema being recorded: the field's reference path, enumeration entry and error "
+               "messages no longer name it" % f.qualname)
+    ctx.need(n >= 2, "fewer than 2 __setkey__ overrides found")
+
+
 def check(ctx):
+    check_lookup_namespace(ctx)
+    check_setkey_protocol(ctx)
     an, model = ctx.an, ctx.model
     # ---------------------------------------------------------------- C16.1 separators
     fns = [model.function("support", "get_all_fields"), model.method("Schema", "__getitem__"), model.method("Schema", "__setitem__"),
@@ -136,7 +202,19 @@ def check(ctx):
     # only Fields, and the option string derives from the path
     for n in adds:
         a0 = n.ast.args[0] if n.ast.args else None
-        okn = a0 is not None and any(k == "expr" and "name" in ast.unparse(pl) for k, pl in value_sources(gp, a0, n))
+        def from_path(e, at, depth=0):
+            """does the expression mention (through locals) the path of the field enumerated by this iteration?"""
+            if depth > 5:
+                return False
+            for x in ast.walk(e):
+                if isinstance(x, ast.Name) and isinstance(x.ctx, ast.Load):
+                    for k, pl in value_sources(gp, x, at):
+                        if k == "iter":
+                            return True
+                        if k == "expr" and isinstance(pl, ast.AST) and pl is not x and from_path(pl, None, depth + 1):
+                            return True
+            return False
+        okn = a0 is not None and from_path(a0, n)
         ctx.ob("parser.option-from-path", gp, n.ast, okn, "the option string is derived from the path" if okn else "the option string is not derived from the path", node=n, nontrivial=False)
 
     # ---------------------------------------------------------------- C16.4 override
@@ -172,7 +250,30 @@ def check(ctx):
         ctx.ob("override.key-value-from-args", ov, n.ast, okv, "writes the parsed (dest, value) pair unchanged" if okv else
                "the pair written is not the parsed (dest, value) pair", node=n)
     # ignore normalisation: a single string is one key
-    norm = any(isinstance(x, ast.Assign) and isinstance(x.value, ast.List) and len(x.value.elts) == 1 for x in ast.walk(ov.node))
+    # decided by specialising on "ignore is a str": the collection the membership test consults is then [ignore]
+    from engine.specialize import Spec
+    iparam = ov.positional_params[2] if len(ov.positional_params) > 2 else None
+
+    def is_ignore(e, node):
+        if not isinstance(e, ast.Name):
+            return False
+        srcs = value_sources(ov, e, node)
+        return bool(srcs) and all(k == "param" and p == iparam for k, p in srcs)
+
+    def dec_str(e, node):
+        if isinstance(e, ast.Call) and isinstance(e.func, ast.Name) and e.func.id == "isinstance" and len(e.args) == 2 and is_ignore(e.args[0], node):
+            names = [x.id for x in ([e.args[1]] if isinstance(e.args[1], ast.Name) else getattr(e.args[1], "elts", [])) if isinstance(x, ast.Name)]
+            return "str" in names
+        return None
+    sps = Spec(an, ov, dec_str)
+    norm = False
+    members = [t for t in g.nodes if t.kind == "test" and t in sps.nodes and isinstance(t.ast, ast.Compare) and len(t.ast.ops) == 1
+               and isinstance(t.ast.ops[0], (ast.In, ast.NotIn))]
+    for t in members:
+        srcs = sps.sources(t.ast.comparators[0], t)
+        if srcs and all(k == "expr" and isinstance(pl, (ast.List, ast.Tuple, ast.Set)) and len(pl.elts) == 1 and is_ignore(pl.elts[0], sps.where.get(id(pl)))
+                        for k, pl in srcs):
+            norm = True
     ctx.ob("override.ignore-string", ov, "ignore = [ignore]", norm, "a single string is treated as one key" if norm else
            "a string ignore argument is treated as a sequence of characters", nontrivial=False)
     irp = model.function("support", "item_ref_path")
